@@ -336,6 +336,14 @@ def run(ctx):
             if len(sp[1]) == 0:
                 continue
             history_events(ctx, cases, rng, "h%d" % k, sp, 4 if q else 6)
+        # outputs whose scripts have the SHAPE of the standard templates but arbitrary programs: to the wire codec they are just bytes
+        # (a 32-byte witness-v1 program need not be a point; a "hash" need not be a hash)
+        shapes = [[0x51, b"\xff" * 32], [0x51, bytes(32)], [0x51, bytes(range(2, 34))], [0x51, bytes([7]) * 32], [0, bytes(20)], [0, b"\xee" * 32], [0xA9, b"\x01" * 20, 0x87],
+                  [0x76, 0xA9, bytes(20), 0x88, 0xAC], [0x60, b"\x01\x02"], [0x51, b"\x02" * 33], [0x52, b"\x03" * 32], [0x6A, b"data"], [0x51, b"\x00" * 31 + b"\x05"]]
+        for k, sh in enumerate(shapes):
+            sp = rand_tx(rng, 1, 1)
+            sp[2][0]["script"] = list(sh)
+            tx_events(ctx, cases, "shape%d" % k, sp)
         # count boundaries of the compact-size prefix
         for nin, nout in ([(252, 1), (253, 2), (1, 253)] if q else [(0, 1), (252, 1), (253, 2), (254, 0), (300, 300), (1, 252), (2, 253), (1, 300)]):
             tx_events(ctx, cases, "c%d_%d" % (nin, nout), rand_tx(rng, nin, nout))
